@@ -876,7 +876,10 @@ class ExecMixin:
             try:
                 t = self.resolve_type(root)
             except Unsupported:
-                raise Unsupported('modifies entry %r: unknown root' % entry)
+                try:
+                    t = self.resolve_type(parts[0] + '.' + parts[1]); parts = [parts[0] + '.' + parts[1]] + parts[2:]
+                except (Unsupported, IndexError):
+                    raise Unsupported('modifies entry %r: unknown root' % entry)
         else:
             if self.K(t) == 'ptr': t = self.p.elem(t)
         for fname in parts[1:-1]:
